@@ -302,8 +302,7 @@ def make_stream_spec(prog, acts, eofs, rng, backend, lineno_on, extra_options=No
     pats = [scanner.print_rule_pattern(r, rng, defs, posix=prog.get('posix', False)) for r in prog['rules']]
     for name in defs:
         out.append("%s %s" % (name, defs[name]))
-    for i, (name, excl) in enumerate(prog.get('scs', [])):
-        out.append("%s SC%d" % ("%x" if excl else "%s", i + 2))
+    out.extend(scanner.sc_declarations(prog.get('scs', []), len(prog['rules'])))
     out.append("%%")
     for i, p in enumerate(pats):
         out.append("%s\t{ %s }" % (p, action_c(i + 1, acts.get(i + 1, []), backend, lineno_on, bol_obs)))
